@@ -549,7 +549,8 @@ def corruptions(rng, defs, files, full):
             if "default_parameters" not in f:
                 out.append(("bad-deployment-type", "reject", fs))
     out.append(("no-programs", "reject", [x for x in files if x[0] != "program"]))
-    j = rng.randrange(len(files))
+    # (an unreferenced method file is never validated: it does not reach the parameters at all)
+    j = rng.choice([i for i, (k, n, _) in enumerate(files) if k != "method" or n in referenced])
     (kind, nm, f) = files[j]
     g = {k: v for k, v in f.items() if k != "parameter_level"}
     fs = list(files)
